@@ -747,3 +747,66 @@ func runConcStoredBody(h *H, prop string) {
 	h.n++
 	h.emit(w.Str("oapi-stored-body-put-vs-delete").Int(rounds).Bar().Int(bad).Int(0))
 }
+
+// GET racing with replacing PUTs on one id: every GET must return one of the stored versions.
+func runConcGetVsReplace(h *H, prop string) {
+	env := newOapiEnv()
+	ctx := context.Background()
+	mk := func(n int, v float64) *openapi.TrustMatrixRef {
+		m := openapi.InlineTrustMatrix{Scheme: "inline", Size: n}
+		for i := 0; i < n; i++ {
+			for j := 0; j < n; j++ {
+				m.Entries = append(m.Entries, openapi.InlineTrustMatrixEntry{I: i, J: j, V: v})
+			}
+		}
+		var ref openapi.TrustMatrixRef
+		_ = ref.FromInlineTrustMatrix(m)
+		ref.Scheme = "inline"
+		return &ref
+	}
+	const na, nb = 40, 41
+	if _, err := env.srv.UpdateLocalTrust(ctx, openapi.UpdateLocalTrustRequestObject{Id: "r", Body: mk(na, 1)}); err != nil {
+		return
+	}
+	dur := time.Duration(h.budget(1500, 15000)) * time.Millisecond
+	var stop atomic.Bool
+	var bad, gets atomic.Int64
+	var wg sync.WaitGroup
+	for wr := 0; wr < 2; wr++ {
+		wg.Add(1)
+		go func(wr int) {
+			defer wg.Done()
+			for k := 0; !stop.Load(); k++ {
+				if (k+wr)%2 == 0 {
+					env.srv.UpdateLocalTrust(ctx, openapi.UpdateLocalTrustRequestObject{Id: "r", Body: mk(na, 1)})
+				} else {
+					env.srv.UpdateLocalTrust(ctx, openapi.UpdateLocalTrustRequestObject{Id: "r", Body: mk(nb, 2)})
+				}
+			}
+		}(wr)
+	}
+	for rd := 0; rd < 3; rd++ {
+		wg.Add(1)
+		go func() {
+			defer wg.Done()
+			for !stop.Load() {
+				resp, err := env.srv.GetLocalTrust(ctx, openapi.GetLocalTrustRequestObject{Id: "r"})
+				if err != nil {
+					bad.Add(1)
+					continue
+				}
+				if ok200, is := resp.(openapi.GetLocalTrust200JSONResponse); is {
+					gets.Add(1)
+					sz, ne := ok200.Size, len(ok200.Entries)
+					if !((sz == na && ne == na*na) || (sz == nb && ne == nb*nb)) {
+						bad.Add(1)
+					}
+				}
+			}
+		}()
+	}
+	time.Sleep(dur)
+	stop.Store(true)
+	wg.Wait()
+	h.emit(h.line(prop, "conc").Str("oapi-get-vs-replace").Int(int(gets.Load())).Bar().Int(int(bad.Load())).Int(0))
+}
